@@ -22,10 +22,11 @@ Proof. exact table_roundtrip. Qed.
 Print Assumptions C10_table_roundtrip.
 
 (* M5 list_roundtrip: one item per \item, in order, each holding everything up to the next \item of the same list (nested
-   lists and tables stay inside the item that contains them), the optional term attached to its item. *)
+   lists and tables stay inside the item that contains them), the optional term attached to its item; whatever blank material
+   (blanks, blank lines, \par) is written between \begin{..} and the first \item, the items are the children of the list. *)
 Theorem C10_list_roundtrip :
-  forall lk items, wf (CList lk items) = true -> forall d k,
-    digest_top (print d (CList lk items) ++ k)
+  forall lk pre items, wf (CList lk pre items) = true -> forall d k,
+    digest_top (print d (CList lk pre items) ++ k)
     = Some (T (KBegin (EList lk) []) (d + 1)
               (map (fun it => match it with (t, b) => T (KItem t) (d + 1) (map (tree_of (d + 1)) b) end) items), k).
 Proof. exact list_roundtrip. Qed.
@@ -64,7 +65,7 @@ Print Assumptions C10_cell_scope.
    following items -- on the stream the implementation really expands the source to (the frame of the declaration is not closed by
    \item), the digested tree is not the demanded one.  [wf] excludes this input class in C10_list_roundtrip. *)
 Theorem C10_list_declaration_refuted :
-  let c := CList 0 [(None, [CLeaf (KChar 97); CDecl 0 [CLeaf (KChar 98)]]); (None, [CLeaf (KChar 99)])] in
+  let c := CList 0 [] [(None, [CLeaf (KChar 97); CDecl 0 [CLeaf (KChar 98)]]); (None, [CLeaf (KChar 99)])] in
   let s := [leaf (KBegin (EList 0) []) 1; leaf (KItem None) 1; leaf (KChar 97) 1; leaf (KBegin (EDecl 0) []) 2;
             leaf (KChar 98) 2; leaf (KItem None) 2; leaf (KChar 99) 2; leaf (KEnd (EList 0)) 0] in
   map kind_of s = map kind_of (print 0 c) /\ digest_top s <> Some (tree_of 0 c, []).
@@ -153,7 +154,7 @@ Print Assumptions C10_colspec_bars.
    round-trips, and its borders come out as LaTeX draws them; a column specification with a nested star compiles *)
 Example C10_nonvacuous :
   let inner := CTable 0 [mkCol 1 false false] [[[CLeaf (KChar 120)]]] in
-  let lst := CList 2 [(Some [84], [CLeaf (KChar 97); inner]); (None, [CGroup [CDecl 0 [CLeaf (KChar 98)]]])] in
+  let lst := CList 2 [false; true; true] [(Some [84], [CLeaf (KChar 97); inner]); (None, [CGroup [CDecl 0 [CLeaf (KChar 98)]]])] in
   let col := mkCol 2 false true in
   let t := CTable 0 [mkCol 1 true false; mkCol 2 false true; mkCol 3 false false]
              [[[CLeaf KHline; CLeaf (KChar 97)]; []; [lst]];
